@@ -353,9 +353,59 @@ def _oracle(w, st, stats, out, sc):
         for cause in sorted(st["causes"]) or ["unclassified"]:
             out.add("C12.sighting-proxy", f"{first.items[0][1]} - the library's timing is the one that follows from its cache "
                     f"entry instead of the multicast sightings ({cause})", cause=cause)
+        _protection_clause(w, st, out)
         return
     for clause, detail, sig in (second.items if first.items else []):
         out.add(clause, detail, **sig)
+    _protection_clause(w, st, out)
+
+
+def _protection_clause(w, st, out):
+    """'... is not multicast again until at least one second after that sighting': judged from the log of multicast
+    sightings, whichever query the later transmission was meant for. The library decides when a query arrives and
+    never revisits an answer that is already queued, so a copy decided before the sighting goes out on its own
+    schedule: where another delivered query accounts for the transmission that is the known finding, where none does
+    it is a violation."""
+    t0 = w.t0
+    t_ready = st["t_ready"]
+    if t_ready is None:
+        return
+    rels = st["releases"]
+    mtx = [tx for tx in w.net.trace if tx.host == "R" and tx.multicast and tx.msg is not None and tx.msg.is_response
+           and tx.t > t_ready]
+    probes = [r2 for r2 in rels if any(m.authorities for _, m in r2.packets)]  # "probe replies excepted"
+    for rel in rels:
+        if rel.t_lo <= t_ready or getattr(rel, "ambiguous", False) or getattr(rel, "timer", False):
+            continue
+        for ident, alts in rel.expect.items():
+            prot = [a for a in alts if a[1] == "prot"]
+            if not prot or len(prot) != len(alts):
+                continue
+            lo = min(a[2] for a in prot)  # sighting + 1 s
+            early = [tx for tx in mtx if rel.t_hi + EPS < tx.t < lo - EPS and
+                     any(a.ident() == ident and a.ttl > 0 for a in tx.msg.answers) and
+                     not any(r2.t_lo - EPS <= tx.t <= r2.t_hi + EPS for r2 in probes)]
+            if not early:
+                continue
+            tx = early[0]
+            def covers(r2):
+                for (_, _, lo2, hi2, _) in r2.expect.get(ident, []) + r2.expect_lib.get(ident, []):
+                    if getattr(r2, "ambiguous", False):
+                        lo2, hi2 = min(lo2, r2.t_lo), max(hi2, r2.t_hi + 1.2)
+                    if lo2 - EPS <= tx.t <= hi2 + EPS:
+                        return True
+                return False
+
+            if any(lo2 - EPS <= tx.t <= hi2 + EPS for (_, _, lo2, hi2, _) in rel.expect_lib.get(ident, [])):
+                continue  # the library did not know of the sighting: reported as the sighting-proxy finding
+            other = any(r2 is not rel and covers(r2) for r2 in rels)
+            out.add("C12.multicast-within-a-second-of-sighting", f"{alts[0][0]!r}: seen multicast at {lo - 1.0 - t0:.6f}, "
+                    f"less than a second before the query delivered at {rel.t_lo - t0:.6f} "
+                    f"({[m.questions for _, m in rel.packets][:1]}), yet multicast again at {tx.t - t0:.6f}, "
+                    f"{1000 * (tx.t - (lo - 1.0)):.0f} ms after that sighting"
+                    + (" (as the answer to another query, decided before the sighting)" if other else ""),
+                    decided_for_another_query=other)
+            return
 
 
 def _oracle_pass(w, st, stats, out, sc, table):
@@ -412,8 +462,9 @@ def _oracle_pass(w, st, stats, out, sc, table):
                 continue
             stats[{"imm": "immediate", "agg": "aggregated", "prot": "protected"}[cls]] += 1
             lo_l = rel.t_lo
+            # (the record reaches the querier in whatever section of a multicast response it travels)
             hit = [tx for tx in mtx if lo_l - EPS <= tx.t <= hi + EPS and any(a.ident() == ident and a.ttl > 0
-                                                                             for a in tx.msg.answers)]
+                                                                             for a in tx.msg.records())]
             if not hit:
                 sent = [round(tx.t - t0, 4) for tx in mtx if any(a.ident() == ident for a in tx.msg.answers)]
                 out.add("C12.answer-missing-or-late", f"{r!r} asked for by {[m.questions for _, m in rel.packets][:2]} released at "
